@@ -13,6 +13,9 @@ import Reduino.Lang.CSem
   Strings (W13): `_infer_expr_type` gives `String` for a literal and for a binary operation with a `String` operand; a constant string
   initialiser goes into the global declaration (`String s = "ab";`), anything else gets the default `""`.
   Programs that assign a NEW name below the top level (they need the promotion machinery) are outside the fragment.
+  Helper functions (W6): a call statement is translated together with the definition it carries (`funShapeOk`, `funDecls`, `retTy`,
+  `callSiteOk`, `funCallsStable`); `withHelpers` adds the list of emitted definitions (`trHelper`) after checking `Prog.resolved` and
+  `Prog.sigsOk` — see the comments there for the measured rules (which signature is emitted, when prototypes are).
 -/
 namespace Reduino.Lang
 
@@ -75,6 +78,110 @@ def okTargets (te : C.TyEnv) : List String → List Expr → Bool
   | x :: xs, e :: es => (te.lookup x == some (inferTy te e)) && okTargets te xs es
   | _, _ => true
 
+/-- the names a statement assigns (W6: a call `x = f(…)` assigns `x`) -/
+def Stmt.assigned : Stmt → List String
+  | .skip => []
+  | .seq a b => a.assigned ++ b.assigned
+  | .assign x _ => [x]
+  | .aug x _ _ => [x]
+  | .tuple _ xs _ => xs
+  | .ctuple _ _ xs _ => xs
+  | .ifs _ t e => t.assigned ++ e.assigned
+  | .whileLoop _ b => b.assigned
+  | .forRange _ _ b => b.assigned
+  | .write _ => []
+  | .sleep _ => []
+  | .brk => []
+  | .call x _ _ _ _ _ _ _ => x.toList
+
+/-- no tuple assignment anywhere (how `tmp_counter` travels through a function body is not modelled: W6 keeps tuples out of helpers) -/
+def Stmt.tupleFree : Stmt → Bool
+  | .seq a b => a.tupleFree && b.tupleFree
+  | .tuple _ _ _ => false
+  | .ctuple _ _ _ _ => false
+  | .ifs _ t e => t.tupleFree && e.tupleFree
+  | .whileLoop _ b => b.tupleFree
+  | .forRange _ _ b => b.tupleFree
+  | _ => true
+
+/-- W6, the declarations of a function body: a name that is not declared yet is declared by its first assignment at the TOP level of
+    the body (`int t = (v * 2);`), with the type inferred for the right-hand side; a compound statement (or a call) assigns declared
+    names only (a first assignment below the top level of a function body is a block-local declaration: not modelled) -/
+def funDecls (te : C.TyEnv) : Stmt → Option C.TyEnv
+  | .skip => some te
+  | .seq a b => (funDecls te a).bind fun te1 => funDecls te1 b
+  | .assign x e =>
+    match te.lookup x with
+    | some _ => some te
+    | none => some (te ++ [(x, inferTy te e)])
+  | s => if s.assigned.all (fun x => (te.lookup x).isSome) then some te else none
+
+/-- W6, what the body of a helper must satisfy for the model to translate it: no tuple assignment, no assignment to a parameter
+    (a re-assigned parameter may change the type the parser gives it — the "primary parse" subtlety of W8), parameter names distinct -/
+def funShapeOk (ps : List (String × Ty)) (body : Stmt) : Bool :=
+  body.tupleFree && body.assigned.all (fun x => (ps.lookup x).isNone) && (ps.map (·.1)).Nodup
+
+/-! W6, which definition of a helper is emitted.  The parser parses a `def` once with ALL-INT parameters (the "primary" parse); a call
+    whose TYPE it infers — `x = f(args)`: the right-hand side of an assignment — requests the signature `args.map infer` and the body
+    is parsed again for it; a call statement `f(args)` requests nothing.  The emitted definitions are the requested ones, or the
+    primary one when there is no request.  The model follows the case of ONE emitted definition per helper:
+    `Prog.sigsOk` — a helper that is never called with a target has all-int parameters; `funCallsStable` — the argument types of the
+    value calls inside a body do not depend on whether the body is parsed under all-int or under the requested parameter types (so the
+    primary parse requests nothing else from the helpers it calls); `callSiteOk` — every call passes exactly the parameter types. -/
+
+/-- helpers called with a target (`x = f(…)`) in the statement; the carried bodies are not entered -/
+def Stmt.valueCalls : Stmt → List String
+  | .seq a b => a.valueCalls ++ b.valueCalls
+  | .ifs _ t e => t.valueCalls ++ e.valueCalls
+  | .whileLoop _ b => b.valueCalls
+  | .forRange _ _ b => b.valueCalls
+  | .call (some _) f _ _ _ _ _ _ => [f]
+  | _ => []
+
+/-- the arguments of those calls -/
+def Stmt.valueCallArgs : Stmt → List Expr
+  | .seq a b => a.valueCallArgs ++ b.valueCallArgs
+  | .ifs _ t e => t.valueCallArgs ++ e.valueCallArgs
+  | .whileLoop _ b => b.valueCallArgs
+  | .forRange _ _ b => b.valueCallArgs
+  | .call (some _) _ _ _ _ _ _ args => args
+  | _ => []
+
+def Stmt.loopVars : Stmt → List String
+  | .seq a b => a.loopVars ++ b.loopVars
+  | .ifs _ t e => t.loopVars ++ e.loopVars
+  | .whileLoop _ b => b.loopVars
+  | .forRange i _ b => i :: b.loopVars
+  | _ => []
+
+def Prog.sigsOk (p : Prog) : Bool :=
+  let called := p.pre.valueCalls ++ (match p.body with | some b => b.valueCalls | none => []) ++ p.helpers.flatMap (·.body.valueCalls)
+  p.helpers.all fun h => h.ps.all (·.2 == .int) || called.contains h.name
+
+/-- the return type of the emitted definition: inferred from the expression of the trailing `return` (`void` when there is none; the
+    model's `rt` is then unused) -/
+def retTy (te' : C.TyEnv) : Option Expr → Ty
+  | some e => inferTy te' e
+  | none => .int
+
+/-- W6, a call site: as many arguments as parameters, each of the parameter's type (ONE signature per helper: no second variant is
+    emitted); a target is declared with the return type, and only a value-returning helper has one -/
+def callSiteOk (te : C.TyEnv) (ps : List (String × Ty)) (x : Option String) (ret : Option Expr) (rt : Ty) (args : List Expr) : Bool :=
+  (args.map (inferTy te) == ps.map (·.2)) &&
+    (match x, ret with
+     | none, _ => true
+     | some x, some _ => te.lookup x == some rt
+     | some _, none => false)
+
+/-- the value calls of a body request the same signatures under the all-int parse as under the declarations `te'` of the emitted
+    definition (`for` variables are `int` in both) -/
+def funCallsStable (ps : List (String × Ty)) (body : Stmt) (te' : C.TyEnv) : Bool :=
+  match funDecls (ps.map fun q => (q.1, Ty.int)) body with
+  | none => false
+  | some teP =>
+    let lv : C.TyEnv := body.loopVars.map fun i => (i, Ty.int)
+    body.valueCallArgs.all fun e => inferTy (lv ++ teP) e == inferTy (lv ++ te') e
+
 /-- nested statements: every assigned name must already be declared -/
 def trNested (te : C.TyEnv) (inMain : Bool) : Nat → Stmt → Except TrErr Stmt
   | _, .skip => .ok .skip
@@ -97,6 +204,19 @@ def trNested (te : C.TyEnv) (inMain : Bool) : Nat → Stmt → Except TrErr Stmt
   | _, .write e => .ok (.write e)
   | _, .sleep e => .ok (.sleep (foldArg e))
   | d, .brk => if inMain ∧ d = 0 then .error .breakInMainLoop else .ok .brk
+  -- W6: a call at statement level.  The carried definition is translated on the spot (the same computation as `trHelper` on the
+  -- listed definition): locals by `funDecls`, the body by `trNested` under parameters + locals, the return type by `retTy`; the
+  -- call site by `callSiteOk`
+  | _, .call x f ps _ _ body ret args =>
+    if funShapeOk ps body = true then
+      match funDecls ps body with
+      | none => .error .outsideFragment
+      | some te' => do
+        let body' ← trNested te' false 0 body
+        if (callSiteOk te ps x ret (retTy te' ret) args && funCallsStable ps body te') = true then
+          pure (.call x f ps (te'.drop ps.length) (retTy te' ret) body' ret args)
+        else .error .outsideFragment
+    else .error .outsideFragment
 
 structure TopAcc where
   globals : List (String × Ty × Expr) := []      -- reversed
@@ -125,6 +245,23 @@ def seqOf : List Stmt → Stmt
   | [s] => s
   | s :: rest => .seq s (seqOf rest)
 
+/-- W6: a listed definition, translated as at its call sites -/
+def trHelper (h : Helper) : Except TrErr Helper :=
+  if funShapeOk h.ps h.body = true then
+    match funDecls h.ps h.body with
+    | none => .error .outsideFragment
+    | some te' => do
+      let body' ← trNested te' false 0 h.body
+      if funCallsStable h.ps h.body te' = true then pure { h with ls := te'.drop h.ps.length, rt := retTy te' h.ret, body := body' }
+      else .error .outsideFragment
+  else .error .outsideFragment
+
+def trHelpers : List Helper → Except TrErr (List Helper)
+  | [] => .ok []
+  | h :: hs => do let h' ← trHelper h; let hs' ← trHelpers hs; pure (h' :: hs')
+
+/-- the translation of prologue and main loop (the call statements carry their translated definitions); `tr` adds the list of
+    emitted function definitions -/
 def trCore (p : Prog) : Except TrErr CProg := do
   let acc ← trTop {} p.pre
   let loop ← match p.body with
@@ -133,12 +270,41 @@ def trCore (p : Prog) : Except TrErr CProg := do
   pure { globals := acc.globals.reverse, setup := seqOf acc.setup.reverse, loop := loop }
 
 /-- tuple statements must carry the parser's counter (`Prog.renum` establishes it; the driver applies it to every program read) -/
-def tr (p : Prog) : Except TrErr CProg := if p.numbered then trCore p else .error .outsideFragment
+def withHelpers (p : Prog) (core : Except TrErr CProg) : Except TrErr CProg :=
+  if (p.resolved && p.sigsOk) = true then do
+    let hs ← trHelpers p.helpers
+    let c ← core
+    pure { c with helpers := hs }
+  else .error .outsideFragment
 
-theorem tr_ok {p : Prog} {c : CProg} (h : tr p = .ok c) : p.numbered = true ∧ trCore p = .ok c := by
+def tr (p : Prog) : Except TrErr CProg := if p.numbered then withHelpers p (trCore p) else .error .outsideFragment
+
+theorem withHelpers_ok {p : Prog} {core : Except TrErr CProg} {c : CProg} (h : withHelpers p core = .ok c) :
+    ∃ c0 hs, core = .ok c0 ∧ c = { c0 with helpers := hs } := by
+  unfold withHelpers at h
+  split at h
+  · cases h1 : trHelpers p.helpers with
+    | error e => rw [h1] at h; cases h
+    | ok hs =>
+      cases h2 : core with
+      | error e => rw [h1, h2] at h; cases h
+      | ok c0 => rw [h1, h2] at h; cases h; exact ⟨c0, hs, rfl, rfl⟩
+  · cases h
+
+theorem withHelpers_error {p : Prog} {core : Except TrErr CProg} {e : TrErr} (h : core = .error e) :
+    ∃ e', withHelpers p core = .error e' := by
+  unfold withHelpers
+  split
+  · cases h1 : trHelpers p.helpers with
+    | error e1 => exact ⟨e1, rfl⟩
+    | ok hs => rw [h]; exact ⟨e, rfl⟩
+  · exact ⟨_, rfl⟩
+
+theorem tr_ok {p : Prog} {c : CProg} (h : tr p = .ok c) :
+    p.numbered = true ∧ ∃ c0 hs, trCore p = .ok c0 ∧ c = { c0 with helpers := hs } := by
   unfold tr at h
   split at h
-  · exact ⟨‹_›, h⟩
+  · exact ⟨‹_›, withHelpers_ok h⟩
   · cases h
 
 end Reduino.Lang
